@@ -1,26 +1,43 @@
-# Claims table for gen_manifest.py: claim(id, technique, level text, level note, DESIGN ref)
+# Claims for gen_manifest.py, derived from the checker's own property table (`resverif describe`), so that the
+# MANIFEST text and the rules cannot drift apart.
+import json, subprocess
 
-BASE_NOTE = ("Trusted base: Go type checker and go/ssa (x/tools v0.29.0); VTA call graph for interface calls; the frozen "
-             "combinator table (checker/cmd/resverif/combs.go), each repository entry of which is itself proved by LIN/continuations; "
-             "library semantics (encoding/json, nats.go, timerqueue, gorilla/websocket, net/http). ")
+_desc = json.loads(subprocess.check_output([os.path.join(V, "bin", "resverif"), "describe"]))
 
-claim("C07", "typestate analysis by abstract path enumeration over continuation trees (go/ssa): linear use of continuations",
-      "Decides for every path and schedule: rpc.HandleRequest performs exactly one Reply per dispatched request (directly or inside a handler continuation); "
-      "every continuation parameter of the 27 handlers/combinators is consumed exactly once on every full path (call, delegation, or parked in a pending slot); "
-      "pending callback slots are cleared only after draining. Structural necessary conditions only: liveness and the readyCallback countdown are not decided.",
-      BASE_NOTE + "Assumes mq.Client.SendRequest completes exactly once (C18). Accepted drop point: a task refused because the connection is disposing. Known finding F9 (Dispose drops ready callbacks on a live connection) is reported as KNOWN-FINDING.",
-      "DESIGN.md §4 C07, §3.2")
+_ENGINE = {
+    "LIN": "linear use of continuations (typestate by abstract path enumeration over continuation trees)",
+    "PAIR": "acquire/release pairing along continuation paths (typestate by abstract path enumeration)",
+    "CONF": "path conformance of a handler against its event automaton",
+    "PATHS": "correlated path enumeration",
+    "DOM": "guard dominance on SSA (closure-creation sites lifted)",
+    "CTX": "execution-context (thread confinement) and guarded-by analysis over the call graph",
+    "PROV": "backward provenance / taint over SSA def-use chains and the VTA call graph",
+    "TABLE": "finite-table extraction by constant propagation with one input fixed per case",
+    "TYPESTATE": "typestate transition table (who may store which state)",
+    "WHO": "who-may-write field-store index",
+    "FIFO": "queue update-form classification",
+    "REC": "recursion census (SCCs of the synchronous call graph) with guard checks",
+    "CHAN": "close/send discipline on channel fields",
+    "LOCK": "lock-order graph",
+    "CENSUS": "census of explicit panics and unchecked assertions",
+    "TWIN": "sibling agreement of twin implementations",
+}
 
-_T = "typestate / dominance analysis by abstract path enumeration over continuation trees (go/ssa, no execution)"
-for _id, _txt in {
- "C01": "Decides structural necessary conditions of convergence: version filter on delivery, event gate, (more rules being added). Not decided: end-to-end equality of client copy and service state.",
- "C03": "Decides: handleEvent conformance (stamp, apply, fan-out inside the unlock window, no go statement), content/version/update change together, version filter, event gate with in-loop re-test. Not decided: socket delivery, lock capacity countdown.",
- "C04": "Decides: data hand-out only after a get grant on the same continuation path; decision lists of CanGet/CanCall; verdict cached only for result/accessDenied; verdict invalidated on every trigger. Not decided: staleness of an access answer in flight.",
- "C06": "Decides: token change fans out to every subscription; verdict cleared and gate closed before the re-check, validate then reopen after. Not decided: timing.",
- "C08": "Decides: direct-count acquire/release pairing on every continuation path of every function taking a direct subscription. Not decided: numeric equality with the response history.",
- "C09": "Decides: cache use-count pairing (getSubscription, sendRequest, Subscribe, membership removal, late Loaded). Not decided: eviction delay, gauges at quiescence.",
- "C12": "Decides (plumbing only): re-fetch once per matching cached entry with its normalised query unless one is outstanding; resetting flag protocol; derived events through handleEvent. Not decided: wildcard matcher, model diff, LCS edit script (the core of the property).",
- "C13": "Decides: one lock per cached query released exactly once on every outcome, request to the event's subject with the query key, per-iteration capture, initial load guarded by the not-loaded test of the same entry, repeated Loaded ignored. Not decided: lock capacity countdown arithmetic.",
- "C19": "Decides: exactly one Done per governed request on every path, outside any refusable task. Not decided: counting outstanding requests at run time.",
-}.items():
-    claim(_id, _T, _txt, BASE_NOTE, "DESIGN.md §4 " + _id)
+BASE_NOTE = ("Level 'other': static analysis of /repo's current source with go/packages + go/ssa + VTA call graph; nothing is executed. "
+             "The check decides the named structural necessary conditions on every path of the analysed functions; it does not decide the "
+             "runtime behaviour as a whole. Trusted base: Go type checker and go/ssa (x/tools v0.29.0); the VTA call graph for interface calls; "
+             "the frozen combinator table (checker/cmd/resverif/combs.go), each repository entry of which is itself proved by LIN/continuations; "
+             "library semantics (encoding/json, nats.go, timerqueue, gorilla/websocket, net/http, sync). ")
+
+for _id, d in sorted(_desc.items()):
+    if not _id.startswith("C") or not _id[1:].isdigit():
+        continue
+    engines = []
+    for r in d["rules"]:
+        e = r["name"].split("/")[0]
+        if e not in engines:
+            engines.append(e)
+    tech = "static analysis: " + "; ".join(_ENGINE.get(e, e) for e in engines)
+    rules = ", ".join(r["name"] for r in d["rules"])
+    note = BASE_NOTE + "Assumptions: " + "; ".join(d["assumptions"] or []) + ". Rules: " + rules + ". Genuine defects found by these rules are fixed in /repo (fix: commits) or listed in known_findings.txt and printed as KNOWN-FINDING."
+    claim(_id, tech, d["explanation"], note, "DESIGN.md §4 " + _id)
